@@ -33,7 +33,7 @@ worker() {
     fi
     RACE=""; [ "$p" = "C17" ] && RACE="-race"
     out="BUILD-FAILED"
-    if (cd "$HW" && go build $RACE -tags verif -o "$VD/harness/bin/vcheck" ./cmd/vcheck 2> "$VD/build.log" && { [ -z "$RACE" ] || go build -race -tags verif -o "$VD/harness/bin/vfirst" ./cmd/vfirst 2>> "$VD/build.log"; }); then
+    if (cd "$HW" && go build $RACE -tags verif -o "$VD/harness/bin/vcheck" ./cmd/vcheck 2> "$VD/build.log" && go build $RACE -tags verif -o "$VD/harness/bin/vfirst" ./cmd/vfirst 2>> "$VD/build.log"); then
       out=$(cd "$VD" && VERIF_DIR="$VD" VCHECK_BIN="$VD/harness/bin/vcheck" VFIRST_BIN="$VD/harness/bin/vfirst" timeout 1800 "$VD/harness/bin/vcheck" "$p" quick 2>&1)
       rc=$?
     else rc=9; fi
